@@ -191,7 +191,7 @@ macro_rules! ans_harnesses {
                 let mut c = Coder::from_raw_parts(bulk, state);
                 match c.decode_symbol(e) {
                     Ok(s) => assert!(s == e.sym || s == !e.sym, "C10: symbol outside the model"),
-                    Err(_) => assert!(false, "C10: ANS decode must not fail"),
+                    Err(_) => assert!(false, "C10/C04: ANS decode must not fail"),
                 }
             }
 
